@@ -69,16 +69,24 @@ def run(tier):
     pf = os.path.join(work, "p")
     open(pf, "w").write("\n".join(pats) + "\n")
     jobs = [(v, "default", None) for v in versions] + [(v, "dyn", "ruleguard") for v in versions if v in ("", "1.13", "1.14", "1.16", "1.17", "1.20", "1.23")]
+    # the integrating application may re-target a shared context after the checkers were built
+    late = ["1.13", "1.16", "1.20"]
+    jobs += [(v, "default", "LATE") for v in late] + [(v, "dyn", "LATE-ruleguard") for v in late[:2]]
 
     def one(job):
         v, pv, only = job
-        outp = os.path.join(work, "o-%s-%s.jsonl" % (v or "none", pv))
+        outp = os.path.join(work, "o-%s-%s-%s.jsonl" % (v or "none", pv, "late" if only and only.startswith("LATE") else "early"))
         cmd = [vw, "scan", "-dir", ws, "-patterns", pf, "-out", outp, "-pv", pv, "-pvfile", pvf, "-diags"]
         if v:
             cmd += ["-gover", v]
+        tag = pv
+        if only and only.startswith("LATE"):
+            cmd += ["-goverlate"]
+            tag = pv + "-late"
+            only = only[5:] or None
         if only:
             cmd += ["-only", only]
-        rc = vlib.run_worker(cmd, os.path.join(work, "l-%s-%s" % (v or "none", pv)), 900, cwd=ws)
+        rc = vlib.run_worker(cmd, os.path.join(work, "l-%s-%s" % (v or "none", tag)), 900, cwd=ws)
         ds = []
         done = False
         if os.path.exists(outp):
@@ -88,7 +96,7 @@ def run(tier):
                     ds.append(r["d"])
                 elif r.get("kind") == "done":
                     done = True
-        return job, ds, done, os.path.join(work, "l-%s-%s" % (v or "none", pv))
+        return (v, tag, None), ds, done, os.path.join(work, "l-%s-%s" % (v or "none", tag))
 
     by = {}
     srccache = {}
@@ -98,6 +106,7 @@ def run(tier):
         by[(v, pv)] = ds
         if not v or v == "1.99":
             continue
+        pv = pv.replace("-late", "")
         V = parse_v(v)
         if V < (1, 13):
             continue   # the property quantifies over target versions from 1.13 on; 1.9/1.12 only serve the numeric-comparison test
@@ -131,6 +140,15 @@ def run(tier):
 
     def key(ds):
         return sorted((d["file"], d["line"], d["col"], d["checker"], d["text"]) for d in ds)
+    for v in late:
+        for pv in ("default", "dyn"):
+            if (v, pv + "-late") in by:
+                res.count("late_retarget_comparisons")
+                if key(by[(v, pv + "-late")]) != key(by[(v, pv)]):
+                    ka, kb = set(key(by[(v, pv)])), set(key(by[(v, pv + "-late")]))
+                    diff = sorted(ka ^ kb)
+                    res.add_violation("version-set-after-construction-ignored:" + (diff[0][3] if diff else "?"), "SetGoVersion(%s) after the checkers were constructed gives different diagnostics than before construction (%d differences), e.g. %s" % (v, len(diff), diff[:2]),
+                                      {"version": v, "engine": pv, "only_early": sorted(ka - kb)[:4], "only_late": sorted(kb - ka)[:4]})
     # no version == newest; 1.N == go1.N
     for a, b, what in (("", "1.99", "unset-vs-newest"), ("1.13", "go1.13", "prefix"), ("1.16", "go1.16", "prefix"), ("1.21", "go1.21", "prefix")):
         res.count("version_equivalences")
